@@ -576,7 +576,18 @@ macro_rules! impl_rem_assign_scalar {
             #[inline]
             fn rem_assign(&mut self, other: &BigUint) {
                 *self = match other.$to_scalar() {
-                    None => *self,
+                    // `other` exceeds `$scalar::MAX`, so `|*self| < other` and the remainder is `*self`
+                    // itself, except for a signed `MIN` divided by exactly `|MIN| = 2^(BITS-1)`.
+                    None => {
+                        if *self == <$scalar>::MIN
+                            && other.bits() == u64::from(<$scalar>::BITS)
+                            && other.trailing_zeros() == Some(u64::from(<$scalar>::BITS) - 1)
+                        {
+                            0
+                        } else {
+                            *self
+                        }
+                    }
                     Some(0) => panic!("attempt to divide by zero"),
                     Some(v) => *self % v
                 };
